@@ -53,6 +53,9 @@ def gen_cases(tier, seed):
                              "root": ["rand", "zeros", None][i % 3]}
     for i in range(150 if q else 3000):
         yield "block", {"n": 1 + i % 50 if i % 5 == 0 else 1 + i % 6, "salt": rng.getrandbits(40)}
+    for i in range(36 if q else 500):
+        yield "cli_block", {"salt": rng.getrandbits(40), "fmt": ["raw", "hex", "bin"][i % 3], "n": 1 + i % 4,
+                            "vlow": [0x0A, 0x20, 0x00, 0x0D, 0x30, 0x01][i % 6], "lhigh": [0x0A, 0x0D, 0x20, 0x09, 0x00, 0x01][(i // 2) % 6]}
     for i in range(40 if q else 600):
         yield "mine", {"salt": rng.getrandbits(40), "n_mempool": [0, 1, 2, 3, 4, 5, 6, 9][i % 8], "segwit": ["none", "some", "all"][i % 3],
                        "height": rng.choice([0, 1, 15, 16, 148, 149, 150, 299, 300, 1000, 70000]), "regtest_difficulty": i % 4 != 3}
@@ -61,7 +64,7 @@ def gen_cases(tier, seed):
 def required(tier):
     return {"merkle.decided": 300, "merkle.class.odd_inner_level": 100, "heights.decided": 140000, "heights.class.height0": 2,
             "heights.class.halving_boundary": 200, "cb.script_len": 100, "cb.reward.over_refused": 20, "cb.witness": 30,
-            "block.decided": 140, "block.txs": 700, "mine.decided": 35, "mine.with_commitment": 15, "mine.without_commitment": 8}
+            "block.decided": 140, "block.txs": 700, "mine.decided": 35, "cli.blocks": 30, "mine.with_commitment": 15, "mine.without_commitment": 8}
 
 
 def exhaustive(tier, counts):
@@ -302,6 +305,31 @@ def run_case(kind, params, ctx):
                 ctx.violation("block/tx-ids-wrong", f"tx {i} of {n}")
             if g.get("raw") != raw.hex():
                 ctx.violation("block/tx-raw-wrong", f"tx {i} of {n}")
+        return
+    if kind == "cli_block":
+        from . import clihelp
+        n, fmt = params["n"], params["fmt"]
+        txs = [txgen.gen_tx(rng, "normal") for _ in range(n)]
+        txs[-1]["locktime"] = (params["lhigh"] << 24) | rng.getrandbits(24)      # last byte of the block
+        raws = [txref.ser_tx(t) for t in txs]
+        hdr = bytes([params["vlow"]]) + rand_bytes(rng, 79)                       # first byte of the block
+        blk = txref.ser_block(hdr, raws)
+        r = clihelp.run(["blockchain", "--decode", clihelp.fmt_flag(fmt)], clihelp.rep(blk, fmt))
+        d = clihelp.json_out(r["out"])
+        ctx.count("cli.blocks")
+        ctx.nontrivial()
+        if not r["ok"] or d is None:
+            ctx.violation(f"cli/block-decode-fails/fmt:{fmt}", f"bits blockchain --decode ({fmt}; first byte {params['vlow']:#x}, last byte {params['lhigh']:#x}): ret={r['ret']!r} out={r['out'][:60]!r}")
+            return
+        got = d.get("txns", [])
+        hf = txref.header_fields(hdr)
+        if (d.get("version"), d.get("prev_blockheaderhash"), d.get("merkle_root_hash"), d.get("nNonce")) != (hf["version"], hf["prev"], hf["merkle"], hf["nonce"]):
+            ctx.violation(f"cli/block-decode-header-wrong/fmt:{fmt}", "header fields differ")
+        if len(got) != n or any(g.get("txid") != txref.txid_of(t).hex() or g.get("raw") != raw.hex() or g.get("locktime") != t["locktime"] for g, t, raw in zip(got, txs, raws)):
+            ctx.violation(f"cli/block-decode-txs-wrong/fmt:{fmt}", f"{len(got)} txs; first byte {params['vlow']:#x}, last byte {params['lhigh']:#x}")
+        r2 = clihelp.run(["blockchain", clihelp.fmt_flag(fmt), "-0x", "-H"], clihelp.rep(blk, fmt))
+        if not r2["ok"] or clihelp.parse_out(r2["out"], "hex") != hdr:
+            ctx.violation(f"cli/block-header-passthrough-wrong/fmt:{fmt}", f"{r2['out'][:60]!r}")
         return
     if kind == "mine":
         _mine(ctx, params, rng)
